@@ -359,7 +359,7 @@ fn eval_text(rt: &mut Rt, text: &str, fmt: &str) -> Eval {
     }
     let r2 = rt.koto.exports().get("r2").and_then(|v| from_kvalue(&v));
     match r2 {
-        Some(b) if same(&b, &r) => {}
+        Some(b) if (fmt == "toml" && same_unordered(&b, &r)) || same(&b, &r) => {}
         other => {
             ev.fail = Some(Fail::new(format!("c20:{fmt}:accepted-value-unstable"), format!("from_string accepted {text:?} as {}; after to_string / from_string it is {:?}", serde_json::to_string(&r).unwrap_or_default(), other.map(|b| serde_json::to_string(&b).unwrap_or_default()))));
         }
